@@ -347,6 +347,30 @@ def run_case(case):
                              "res_seq": 101 + k, "icode": "",
                              "position": ("n", "mid", "c")[k],
                              "linear": True})
+        around = case.get("around")
+        if around:
+            # waters / an ion carrying the ring's chain id, listed after
+            # (and before) the peptide: the ring stays a ring
+            cid = atoms[0]["chain"]
+            last = max(a["res_seq"] for a in atoms)
+            head, tail_ = [], []
+            if "ion" in around:
+                head.append(build.BAtom(
+                    name="ZN", res_name="ZN", chain=cid, res_seq=0, icode="",
+                    xyz=np.array([30.0, 0.0, 0.0]), record="HETATM",
+                    res_idx=-1))
+            if "water" in around:
+                tail_.append(build.water((25.0, 9.0, 9.0), last + 187,
+                                         chain=cid))
+                tail_.append(build.water((25.0, 13.0, 9.0), last + 188,
+                                         chain=cid))
+            atoms = head + atoms + tail_
+            for a in head + tail_:
+                if not any(i_["res_seq"] == a["res_seq"] for i_ in info):
+                    info.append({"kind": "wat" if a["res_name"] == "HOH"
+                                 else "het", "input": a["res_name"],
+                                 "chain": cid, "res_seq": a["res_seq"],
+                                 "icode": "", "linear": True})
         # the file coordinates carry 3 decimals: recompute the distance
         ring = [i_ for i_ in info if not i_.get("linear")]
         n1 = next(a for a in atoms if a["name"] == "N"
@@ -359,7 +383,8 @@ def run_case(case):
             return res  # on the threshold within file precision: not decided
         text = build.pdb_text(atoms)
         tag = ("cyclic" if cyclic else "open-ring") + (
-            f"+linear-{case['other']}" if case.get("other") else "")
+            f"+linear-{case['other']}" if case.get("other") else "") + (
+            f"+{around}-of-same-chain" if around else "")
         n_ends = 2
     else:
         raise ValueError(mode)
@@ -463,4 +488,8 @@ def enumerate_cases(tier, seed):
             for other in ("before", "after"):
                 cases.append({"mode": "cyclic", "ff": ff, "d": d,
                               "other": other, "opts": ["--noopt"]})
+            for around in ("water", "ion", "ion+water"):
+                for opts in (["--noopt"], []):
+                    cases.append({"mode": "cyclic", "ff": ff, "d": d,
+                                  "around": around, "opts": opts})
     return cases
